@@ -3,7 +3,7 @@ from checks import krill_common as kc
 
 PID = "C04"
 LEVEL = "model_checking"
-THEMES = "roll".split(",")
+THEMES = "roll,multi".split(",")
 NEEDED = "RollInit,RollActivate,Settled".split(",")
 
 RULE = (
@@ -48,10 +48,11 @@ DIRECTED = [
 def run(tier, seed):
     return kc.run_property(
         PID, LEVEL, tier, seed, THEMES,
-        quick_num=14 if len(THEMES) > 1 else 30, thorough_num=250,
+        quick_num=24, thorough_num=250,
         assumptions=kc.COMMON_ASSUMPTIONS, rule=RULE, needed_events=NEEDED,
         mc_cfgs=(['MC_Krill_q_roll.cfg'] if tier == "quick" else ['MC_Krill_q_roll.cfg', 'MC_Krill_roll.cfg']),
-        directed=DIRECTED)
+        directed=DIRECTED + kc.MULTI_DIRECTED[1:],
+        theme_nums={"multi": (8, 80)})
 
 
 def replay(path, seed):
